@@ -373,3 +373,363 @@ Theorem C12_presentation_viterbi :
 Proof. exact trop_presentation. Qed.
 Print Assumptions C12_presentation_viterbi.
 
+
+(** * 10. RECURSIVE grammars: least fixed points and certified enclosures (with C02) *)
+(** [weights_pres rho pel G w w'] : w' (pel l) (pmap rho (ltype G l) idx) = w l idx  at every terminal
+    l of G and index tuple idx of its shape (the premise of [C12_presentation]);
+    [env_pres rho pel G x x'] : the same at every NONTERMINAL (x' is x re-indexed by the presentation);
+    [pres_labels pel G] = map pel (nonterminals G), the nonterminals of the presentation that
+    present nonterminals of G (all of them when pel is onto: [C12_lfp_presentation_all]);
+    [is_lfp_on o G S F mu] (Proofs/Kleene_scc.v, C02): F mu = mu at the in-range cells of the labels
+    in S, and mu <= v there for every v with F v <= v there;
+    [encloses_on o G S w lo hi]: hi is above every Kleene iterate and a pre-fixed point, lo is below
+    some Kleene iterate and below every pre-fixed point (what C02's certified enclosures satisfy). *)
+Require Import Fggs.Model.Kleene Fggs.Model.Dual Fggs.Model.Viterbi.
+Require Import Fggs.Proofs.SP_mono Fggs.Proofs.Kleene_proofs Fggs.Proofs.Kleene_scc Fggs.Proofs.Kleene_examples
+               Fggs.Proofs.Presentation_lfp Fggs.Proofs.Presentation_grad Fggs.Proofs.Presentation_trees
+               Fggs.Proofs.Presentation_viterbi Fggs.Proofs.Presentation_rec_examples.
+
+(** ONE application of the equations at ARBITRARY related environments (not only the iterates) *)
+Theorem C12_step_presentation :
+  forall R (o : sr_ops R), sr_ring o ->
+  forall rho pel pnl G G' (w w' x x' : env (R:=R)),
+    wf_grammar G = true -> presents rho pel pnl G G' ->
+    weights_pres rho pel G w w' -> env_pres rho pel G x x' ->
+    forall X xi, vlab G X -> vidx G X xi ->
+      step o G' w' x' (pel X) (pmap rho (ltype G X) xi) = step o G w x X xi.
+Proof. exact (@step_presentation). Qed.
+Print Assumptions C12_step_presentation.
+
+(** x is THE least fixed point of G  <->  the re-indexed x is THE least fixed point of G' *)
+Theorem C12_lfp_presentation :
+  forall R (o : sr_ops R), sr_ring o ->
+  forall rho pel pnl G G' (w w' : env (R:=R)),
+    wf_grammar G = true -> presents rho pel pnl G G' -> weights_pres rho pel G w w' ->
+    forall mu mu', env_pres rho pel G mu mu' ->
+      (is_lfp_on o G (nonterminals G) (step o G w) mu
+       <-> is_lfp_on o G' (pres_labels pel G) (step o G' w') mu').
+Proof. exact (@lfp_presentation). Qed.
+Print Assumptions C12_lfp_presentation.
+
+(** ... on ALL nonterminals of G' when pel reaches them *)
+Theorem C12_lfp_presentation_all :
+  forall R (o : sr_ops R), sr_ring o ->
+  forall rho pel pnl G G' (w w' mu mu' : env (R:=R)),
+    wf_grammar G = true -> presents rho pel pnl G G' -> weights_pres rho pel G w w' ->
+    (forall X', In X' (nonterminals G') -> exists X, vlab G X /\ pel X = X') ->
+    env_pres rho pel G mu mu' ->
+    (is_lfp_on o G (nonterminals G) (step o G w) mu
+     <-> is_lfp_on o G' (nonterminals G') (step o G' w') mu').
+Proof. exact (@lfp_presentation_all). Qed.
+Print Assumptions C12_lfp_presentation_all.
+
+(** which holds, by counting, whenever G' has as many labels as G and pel maps labels to labels
+    (as [relabel_grammar] does) *)
+Theorem C12_presents_onto :
+  forall rho pel pnl G G',
+    presents rho pel pnl G G' ->
+    (forall X, vlab G X -> pel X < length (g_labels G')) ->
+    length (g_labels G') = length (g_labels G) ->
+    forall X', X' < length (g_labels G') -> exists X, vlab G X /\ pel X = X'.
+Proof. exact presents_onto. Qed.
+Print Assumptions C12_presents_onto.
+
+(** the VALUES: any least fixed point of G' read at (pel X, rho xi) is the least fixed point of G at (X, xi) *)
+Theorem C12_lfp_value_presentation :
+  forall R (o : sr_ops R), sr_ring o -> sr_ordered o ->
+  forall rho pel pnl G G' (w w' mu mu' : env (R:=R)),
+    wf_grammar G = true -> presents rho pel pnl G G' -> weights_pres rho pel G w w' ->
+    is_lfp_on o G (nonterminals G) (step o G w) mu ->
+    is_lfp_on o G' (pres_labels pel G) (step o G' w') mu' ->
+    forall X xi, In X (nonterminals G) -> In xi (all_assts (lshape G X)) ->
+      mu' (pel X) (pmap rho (ltype G X) xi) = mu X xi.
+Proof. exact (@lfp_value_presentation). Qed.
+Print Assumptions C12_lfp_value_presentation.
+
+(** [lo, hi] encloses the least fixed point of G  <->  the re-indexed pair encloses that of G' *)
+Theorem C12_enclosure_presentation :
+  forall R (o : sr_ops R), sr_ring o ->
+  forall rho pel pnl G G' (w w' : env (R:=R)),
+    wf_grammar G = true -> presents rho pel pnl G G' -> weights_pres rho pel G w w' ->
+    forall lo lo' hi hi', env_pres rho pel G lo lo' -> env_pres rho pel G hi hi' ->
+      (encloses_on o G (nonterminals G) w lo hi <-> encloses_on o G' (pres_labels pel G) w' lo' hi').
+Proof. exact (@enclosure_presentation). Qed.
+Print Assumptions C12_enclosure_presentation.
+
+(** the certificate computed by C02's [enclosure] for G, re-indexed, brackets every least fixed point of G' *)
+Theorem C12_enclosure_run_presentation :
+  forall R (o : sr_ops R), sr_ring o -> sr_ordered o ->
+  forall (rd infl : R -> R) (leb : R -> R -> bool),
+    (forall x, le o (rd x) x) -> (forall x y, leb x y = true -> le o x y) ->
+  forall rho pel pnl G G' (w w' : env (R:=R)) K lo u (lo' hi' : env (R:=R)),
+    wf_grammar G = true -> presents rho pel pnl G G' -> weights_pres rho pel G w w' ->
+    enclosure o rd infl leb G w K = Some (lo, u) ->
+    env_pres rho pel G (env_of o lo) lo' -> env_pres rho pel G (env_of o u) hi' ->
+    encloses_on o G' (pres_labels pel G) w' lo' hi'
+    /\ forall mu', is_lfp_on o G' (pres_labels pel G) (step o G' w') mu' ->
+         le_on_set o G' (pres_labels pel G) lo' mu' /\ le_on_set o G' (pres_labels pel G) mu' hi'.
+Proof. exact (@enclosure_run_presentation). Qed.
+Print Assumptions C12_enclosure_run_presentation.
+
+(** if the k-th Kleene iterate of G is stationary, the k-th iterate of G' is its least fixed point *)
+Theorem C12_Zk_fixed_presentation :
+  forall R (o : sr_ops R), sr_ring o -> sr_ordered o ->
+  forall rho pel pnl G G' (w w' : env (R:=R)) k,
+    wf_grammar G = true -> presents rho pel pnl G G' -> weights_pres rho pel G w w' ->
+    env_eq_on G (Zk o G w k) (Zk o G w (S k)) ->
+    is_lfp_on o G' (pres_labels pel G) (step o G' w') (Zk o G' w' k).
+Proof. exact (@Zk_fixed_presentation). Qed.
+Print Assumptions C12_Zk_fixed_presentation.
+
+(** SCC by SCC (C02_scc_decomposition; each component solved exactly, e.g. by the linear solve of
+    C02_linear_is_least_fixed_point), any two dependency-respecting component orders *)
+Theorem C12_scc_runs_presentation :
+  forall R (o : sr_ops R), sr_ring o -> sr_ordered o ->
+  forall rho pel pnl G G' (w w' mu : env (R:=R)) order order' acc acc' final final',
+    wf_grammar G = true -> wf_grammar G' = true -> presents rho pel pnl G G' -> weights_pres rho pel G w w' ->
+    (forall X', In X' (nonterminals G') -> exists X, vlab G X /\ pel X = X') ->
+    is_lfp_on o G (nonterminals G) (step o G w) mu ->
+    exact_run o G w order acc final -> Kleene_scc.dep_ordered G [] order ->
+    (forall X, In X (nonterminals G) -> In X (concat order)) ->
+    exact_run o G' w' order' acc' final' -> Kleene_scc.dep_ordered G' [] order' ->
+    (forall X, In X (nonterminals G') -> In X (concat order')) ->
+    forall X xi, In X (nonterminals G) -> In xi (all_assts (lshape G X)) ->
+      final' (pel X) (pmap rho (ltype G X) xi) = final X xi.
+Proof. exact (@scc_runs_presentation). Qed.
+Print Assumptions C12_scc_runs_presentation.
+
+(** carrier instances, no law premises (Proofs/Instances_present.v) *)
+Theorem C12_lfp_presentation_bool :
+  forall rho pel pnl G G' (w w' : env (R:=bool)),
+    wf_grammar G = true -> presents rho pel pnl G G' -> weights_pres rho pel G w w' ->
+    forall mu mu', env_pres rho pel G mu mu' ->
+      (is_lfp_on bool_ops G (nonterminals G) (step bool_ops G w) mu
+       <-> is_lfp_on bool_ops G' (pres_labels pel G) (step bool_ops G' w') mu').
+Proof. exact bool_lfp_presentation. Qed.
+Print Assumptions C12_lfp_presentation_bool.
+
+Theorem C12_lfp_presentation_real :
+  forall rho pel pnl G G' (w w' : env (R:=ereal)),
+    wf_grammar G = true -> presents rho pel pnl G G' -> weights_pres rho pel G w w' ->
+    forall mu mu', env_pres rho pel G mu mu' ->
+      (is_lfp_on ereal_ops G (nonterminals G) (step ereal_ops G w) mu
+       <-> is_lfp_on ereal_ops G' (pres_labels pel G) (step ereal_ops G' w') mu').
+Proof. exact real_lfp_presentation. Qed.
+Print Assumptions C12_lfp_presentation_real.
+
+Theorem C12_lfp_presentation_viterbi :
+  forall rho pel pnl G G' (w w' : env (R:=trop)),
+    wf_grammar G = true -> presents rho pel pnl G G' -> weights_pres rho pel G w w' ->
+    forall mu mu', env_pres rho pel G mu mu' ->
+      (is_lfp_on trop_ops G (nonterminals G) (step trop_ops G w) mu
+       <-> is_lfp_on trop_ops G' (pres_labels pel G) (step trop_ops G' w') mu').
+Proof. exact trop_lfp_presentation. Qed.
+Print Assumptions C12_lfp_presentation_viterbi.
+
+Theorem C12_lfp_value_presentation_real :
+  forall rho pel pnl G G' (w w' mu mu' : env (R:=ereal)),
+    wf_grammar G = true -> presents rho pel pnl G G' -> weights_pres rho pel G w w' ->
+    is_lfp_on ereal_ops G (nonterminals G) (step ereal_ops G w) mu ->
+    is_lfp_on ereal_ops G' (pres_labels pel G) (step ereal_ops G' w') mu' ->
+    forall X xi, In X (nonterminals G) -> In xi (all_assts (lshape G X)) ->
+      mu' (pel X) (pmap rho (ltype G X) xi) = mu X xi.
+Proof. exact real_lfp_value_presentation. Qed.
+Print Assumptions C12_lfp_value_presentation_real.
+
+(** Real / Log: the rounded-and-inflated certificate of C02_real_enclosure_sound *)
+Theorem C12_enclosure_run_presentation_real :
+  forall rho pel pnl G G' (w w' : env (R:=ereal)) K lo u (lo' hi' : env (R:=ereal)),
+    wf_grammar G = true -> presents rho pel pnl G G' -> weights_pres rho pel G w w' ->
+    enclosure ereal_ops rd_real infl_real eleb G w K = Some (lo, u) ->
+    env_pres rho pel G (env_of ereal_ops lo) lo' -> env_pres rho pel G (env_of ereal_ops u) hi' ->
+    encloses_on ereal_ops G' (pres_labels pel G) w' lo' hi'
+    /\ forall mu', is_lfp_on ereal_ops G' (pres_labels pel G) (step ereal_ops G' w') mu' ->
+         le_on_set ereal_ops G' (pres_labels pel G) lo' mu' /\ le_on_set ereal_ops G' (pres_labels pel G) mu' hi'.
+Proof. exact real_enclosure_run_presentation. Qed.
+Print Assumptions C12_enclosure_run_presentation_real.
+
+(** * 11. DERIVATIONS and the Viterbi weight (with C04) *)
+(** the presentation map on derivation trees: [tmap sigma alpha kappa] renames the rule index of
+    every node by sigma, transports its assignment by alpha and lists its children in the order
+    kappa of the rule.  [rule_tsim ... ri]: rule ri of G and rule sigma ri of G' correspond (lhs
+    through pi, edges = the old ones through emap at the positions kappa ri, a permutation;
+    assignments through alpha with externals / attachments restricted consistently with tau).
+    Then images of well-formed derivations are well-formed, with the same weight (any commutative
+    semiring) and depth *)
+Theorem C12_tree_map_sim :
+  forall R (o : sr_ops R), sr_ring o ->
+  forall G G' pi tau sigma alpha kappa emap (w w' : env (R:=R)),
+    (forall ri, ri < length (g_rules G) -> rule_tsim G G' pi tau sigma alpha kappa emap ri) ->
+    (forall ri a ed, ri < length (g_rules G) -> In a (all_assts (node_sizes G (get_rule G ri))) ->
+       In ed (r_edges (get_rule G ri)) -> is_term G (fst ed) = true ->
+       w' (pi (fst ed)) (tau (fst ed) (sel a (snd ed))) = w (fst ed) (sel a (snd ed))) ->
+    forall t X xi, wf_dtree G X xi t ->
+      wf_dtree G' (pi X) (tau X xi) (tmap sigma alpha kappa t)
+      /\ weight o G' w' (tmap sigma alpha kappa t) = weight o G w t
+      /\ SP_trees.depth (tmap sigma alpha kappa t) = SP_trees.depth t.
+Proof. exact (@tmap_sim). Qed.
+Print Assumptions C12_tree_map_sim.
+
+(** every ingredient of a presentation is an instance (rule order: sigma; edge order: kappa; node
+    order / domain values: alpha; labels: pi), so: every well-formed derivation of G has an image
+    among the well-formed derivations of G', of the same weight and depth *)
+Theorem C12_tree_presentation :
+  forall R (o : sr_ops R), sr_ring o ->
+  forall rho pel pnl G G' (w w' : env (R:=R)) X xi,
+    wf_grammar G = true -> presents rho pel pnl G G' -> weights_pres rho pel G w w' ->
+    forall t, wf_dtree G X xi t ->
+      exists t', wf_dtree G' (pel X) (pmap rho (ltype G X) xi) t'
+                 /\ weight o G' w' t' = weight o G w t /\ SP_trees.depth t' = SP_trees.depth t.
+Proof. exact (@tree_presentation). Qed.
+Print Assumptions C12_tree_presentation.
+
+(** selective ordered semirings (a + b is a or b; e.g. max): the image of an OPTIMAL derivation
+    of G is an optimal derivation of G' *)
+Theorem C12_optimal_derivation_presentation :
+  forall R (o : sr_ops R), sr_ring o -> sr_ordered o -> (forall a b, add o a b = a \/ add o a b = b) ->
+  forall rho pel pnl G G' (w w' : env (R:=R)) X xi t,
+    wf_grammar G = true -> presents rho pel pnl G G' -> weights_pres rho pel G w w' ->
+    vlab G X -> vidx G X xi -> is_term G X = false ->
+    wf_dtree G X xi t -> (forall s, wf_dtree G X xi s -> le o (weight o G w s) (weight o G w t)) ->
+    exists t', wf_dtree G' (pel X) (pmap rho (ltype G X) xi) t'
+      /\ weight o G' w' t' = weight o G w t /\ SP_trees.depth t' = SP_trees.depth t
+      /\ forall s', wf_dtree G' (pel X) (pmap rho (ltype G X) xi) s' -> le o (weight o G' w' s') (weight o G' w' t').
+Proof. exact (@optimal_derivation_presentation). Qed.
+Print Assumptions C12_optimal_derivation_presentation.
+
+(** Viterbi (max, +): no premise on the carrier *)
+Theorem C12_viterbi_derivation_presentation :
+  forall rho pel pnl G G' (w w' : env (R:=trop)) X xi t,
+    wf_grammar G = true -> presents rho pel pnl G G' -> weights_pres rho pel G w w' ->
+    vlab G X -> vidx G X xi -> is_term G X = false ->
+    wf_dtree G X xi t -> (forall s, wf_dtree G X xi s -> tle (weight trop_ops G w s) (weight trop_ops G w t)) ->
+    exists t', wf_dtree G' (pel X) (pmap rho (ltype G X) xi) t'
+      /\ weight trop_ops G' w' t' = weight trop_ops G w t /\ SP_trees.depth t' = SP_trees.depth t
+      /\ forall s', wf_dtree G' (pel X) (pmap rho (ltype G X) xi) s' ->
+                    tle (weight trop_ops G' w' s') (weight trop_ops G' w' t').
+Proof. exact trop_optimal_derivation_presentation. Qed.
+Print Assumptions C12_viterbi_derivation_presentation.
+
+(** the optimum C04 judges against (the exact enclosure, = max over all derivations, C04_optimal)
+    is the same at corresponding cells -- in particular at the start assignment *)
+Theorem C12_viterbi_optimum_presentation :
+  forall rho pel pnl G G' (w w' : env (R:=trop)) K K' lo u lo' u' X xi,
+    wf_grammar G = true -> wf_grammar G' = true -> presents rho pel pnl G G' -> weights_pres rho pel G w w' ->
+    enclosure trop_ops (fun x => x) (fun x => x) tleb G w K = Some (lo, u) ->
+    enclosure trop_ops (fun x => x) (fun x => x) tleb G' w' K' = Some (lo', u') ->
+    In X (nonterminals G) -> In xi (all_assts (lshape G X)) ->
+    env_of trop_ops lo' (pel X) (pmap rho (ltype G X) xi) = env_of trop_ops lo X xi.
+Proof. exact trop_optimum_presentation. Qed.
+Print Assumptions C12_viterbi_optimum_presentation.
+
+(** * 12. GRADIENTS (with C03: the dual numbers are a commutative semiring) *)
+(** dual Kleene iterates (value, derivative in the direction d of the terminal weights); the
+    direction is re-indexed like the weights *)
+Theorem C12_dual_presentation :
+  forall R (o : sr_ops R), sr_ring o ->
+  forall rho pel pnl G G' (w w' d d' : env (R:=R)),
+    wf_grammar G = true -> presents rho pel pnl G G' ->
+    weights_pres rho pel G w w' -> weights_pres rho pel G d d' ->
+    forall k X xi, vlab G X -> vidx G X xi ->
+      Zk (dual_ops o) G' (denv w' d') k (pel X) (pmap rho (ltype G X) xi) = Zk (dual_ops o) G (denv w d) k X xi.
+Proof. exact (@dual_Zk_presentation). Qed.
+Print Assumptions C12_dual_presentation.
+
+(** d Z_k[X, xi] / d w[l0, i0]  =  d Z'_k[pel X, rho xi] / d w'[pel l0, rho i0]  (eps parts; the
+    weight entry is moved by the presentation together with the tables) *)
+Theorem C12_grad_presentation :
+  forall R (o : sr_ops R), sr_ring o ->
+  forall rho pel pnl G G' (w w' : env (R:=R)) l0 i0,
+    wf_grammar G = true -> presents rho pel pnl G G' -> weights_pres rho pel G w w' ->
+    vlab G l0 -> vidx G l0 i0 ->
+    forall k X xi, vlab G X -> vidx G X xi ->
+      grad_model o G' w' (pel l0) (pmap rho (ltype G l0) i0) k (pel X) (pmap rho (ltype G X) xi)
+      = grad_model o G w l0 i0 k X xi.
+Proof. exact (@grad_presentation). Qed.
+Print Assumptions C12_grad_presentation.
+
+(** non-recursive grammars: the code-shaped reverse accumulation (C03_nonrecursive_gradient), any
+    two dependency-respecting orders, the cotangent tables [cf] / [cf'] related like all tables *)
+Theorem C12_backward_nonrec_presentation :
+  forall R (o : sr_ops R), sr_ring o ->
+  forall rho pel pnl G G' (w w' : tmt (R:=R)) ord ord' (cf cf' : list nat -> R) l0 i0,
+    wf_grammar G = true -> wf_grammar G' = true -> presents rho pel pnl G G' ->
+    g_start G' = pel (g_start G) ->
+    (forall l, tget w l <> None -> is_term G l = true) -> (forall l, tget w' l <> None -> is_term G' l = true) ->
+    weights_pres rho pel G (env_of o w) (env_of o w') ->
+    SP_main.dep_ordered G [] ord -> NoDup ord -> (forall X, is_term G X = false -> In X ord) ->
+    SP_main.dep_ordered G' [] ord' -> NoDup ord' -> (forall X, is_term G' X = false -> In X ord') ->
+    is_term G l0 = true -> vlab G l0 -> vidx G l0 i0 -> pel l0 < length (g_labels G') ->
+    (forall xi, vidx G (g_start G) xi -> cf' (pmap rho (ltype G (g_start G)) xi) = cf xi) ->
+    env_of o (backward_nonrec o G' w' (map (fun x => [x]) ord') (map cf' (all_assts (lshape G' (g_start G')))))
+           (pel l0) (pmap rho (ltype G l0) i0)
+    = env_of o (backward_nonrec o G w (map (fun x => [x]) ord) (map cf (all_assts (lshape G (g_start G))))) l0 i0.
+Proof. exact (@backward_nonrec_presentation). Qed.
+Print Assumptions C12_backward_nonrec_presentation.
+
+Theorem C12_grad_presentation_real :
+  forall rho pel pnl G G' (w w' : env (R:=ereal)) l0 i0,
+    wf_grammar G = true -> presents rho pel pnl G G' -> weights_pres rho pel G w w' ->
+    vlab G l0 -> vidx G l0 i0 ->
+    forall k X xi, vlab G X -> vidx G X xi ->
+      grad_model ereal_ops G' w' (pel l0) (pmap rho (ltype G l0) i0) k (pel X) (pmap rho (ltype G X) xi)
+      = grad_model ereal_ops G w l0 i0 k X xi.
+Proof. exact real_grad_presentation. Qed.
+Print Assumptions C12_grad_presentation_real.
+
+(** * 13. the hypotheses of sections 10-12 are satisfiable *)
+(** the recursive grammar of C02's examples ( X -> X a | a ,  Y -> Y Y | a ) and a presentation of
+    it (domain values swapped, labels renumbered, edges reversed, rules reversed): it presents; pel
+    is onto; related weights exist in every semiring; a least fixed point exists in Bool and its
+    re-indexing is the least fixed point of the presentation; both exact enclosures succeed and
+    agree; a well-formed two-level derivation; the weight entry a[1] and its image; and the
+    hypotheses of [C12_backward_nonrec_presentation] for the non-recursive pair P_ex / P_ex' *)
+Theorem C12_recursive_example_hypotheses :
+  wf_grammar exG = true /\ wf_grammar exG' = true
+  /\ presents rho_r (pfun pe_r) (pfun pn_r) exG exG'
+  /\ (forall X', In X' (nonterminals exG') -> exists X, vlab exG X /\ pfun pe_r X = X')
+  /\ (forall R (w : env (R:=R)), weights_pres rho_r (pfun pe_r) exG w (pres_w w))
+  /\ (exists mu mu', is_lfp_on bool_ops exG (nonterminals exG) (step bool_ops exG exw) mu
+         /\ env_pres rho_r (pfun pe_r) exG mu mu'
+         /\ is_lfp_on bool_ops exG' (nonterminals exG') (step bool_ops exG' (pres_w exw)) mu')
+  /\ (exists lo lo', enclosure bool_ops (fun x => x) (fun x => x) (fun a b : bool => implb a b) exG exw 3 = Some (lo, lo)
+         /\ enclosure bool_ops (fun x => x) (fun x => x) (fun a b : bool => implb a b) exG' (pres_w exw) 3 = Some (lo', lo')
+         /\ env_of bool_ops lo 1 [1] = true /\ env_of bool_ops lo' 0 [0] = true
+         /\ env_of bool_ops lo 1 [0] = false /\ env_of bool_ops lo' 0 [1] = false)
+  /\ (wf_dtree exG 1 [1] ex_tree /\ vlab exG 1 /\ vidx exG 1 [1] /\ is_term exG 1 = false)
+  /\ (pfun pe_r 0 = 2 /\ pmap rho_r (ltype exG 0) [1] = [0] /\ vlab exG 0 /\ vidx exG 0 [1]).
+Proof.
+  exact (conj ex_wf (conj exG'_wf (conj exG_presents (conj exG_onto (conj (@pres_w_ok)
+        (conj exG'_lfp (conj exG'_enclosure (conj ex_tree_wf ex_entry)))))))).
+Qed.
+Print Assumptions C12_recursive_example_hypotheses.
+
+Theorem C12_backward_example_hypotheses :
+  (forall l, tget wt_ex l <> None -> is_term P_ex l = true)
+  /\ (forall l, tget wt_ex' l <> None -> is_term P_ex' l = true)
+  /\ weights_pres rho_ex (pfun pe_ex) P_ex (env_of nat_ops_example wt_ex) (env_of nat_ops_example wt_ex')
+  /\ g_start P_ex' = pfun pe_ex (g_start P_ex)
+  /\ NoDup [2; 3] /\ (forall X, is_term P_ex X = false -> In X [2; 3])
+  /\ NoDup [3; 1] /\ (forall X, is_term P_ex' X = false -> In X [3; 1])
+  /\ is_term P_ex 0 = true /\ vlab P_ex 0 /\ vidx P_ex 0 [1; 2] /\ pfun pe_ex 0 < length (g_labels P_ex').
+Proof. exact wt_ex_hyps. Qed.
+Print Assumptions C12_backward_example_hypotheses.
+
+(** * 14. order of the components, recursive components included *)
+(** any two dependency-respecting orders of the component list (components of any size, recursive
+    or not), each component solved exactly (its own least fixed point given the earlier results:
+    [exact_run], C02), give the same value at every nonterminal and cell; [mu] is the global least
+    fixed point (whose existence is what C02's solvers establish).  The hypotheses are satisfiable:
+    C02's examples [ex_is_lfp], [ex_dep_ordered] (Proofs/Kleene_examples.v) *)
+Theorem C12_scc_order_irrelevant_exact :
+  forall R (o : sr_ops R), sr_ring o -> sr_ordered o ->
+  forall G (w mu : env (R:=R)) order order' acc acc' final final',
+    wf_grammar G = true ->
+    is_lfp_on o G (nonterminals G) (step o G w) mu ->
+    exact_run o G w order acc final -> Kleene_scc.dep_ordered G [] order ->
+    (forall X, In X (nonterminals G) -> In X (concat order)) ->
+    exact_run o G w order' acc' final' -> Kleene_scc.dep_ordered G [] order' ->
+    (forall X, In X (nonterminals G) -> In X (concat order')) ->
+    forall X xi, In X (nonterminals G) -> In xi (all_assts (lshape G X)) -> final' X xi = final X xi.
+Proof. exact (@scc_order_irrelevant_exact). Qed.
+Print Assumptions C12_scc_order_irrelevant_exact.
